@@ -22,19 +22,39 @@ type verifSink struct {
 	shortOnly bool // first faulty call returns n<len with a nil error (a contract-breaking short write)
 	faulted   bool
 	refused   bool
+	transient bool // only the first faulty call fails; afterwards the sink accepts everything again
+	recovered bool
+	record    bool   // keep the accepted bytes
+	data      []byte
 }
 
 func (s *verifSink) Write(p []byte) (int, error) {
+	if s.recovered {
+		s.accepted += len(p)
+		if s.record {
+			s.data = append(s.data, p...)
+		}
+		return len(p), nil
+	}
 	room := s.limit - s.accepted
 	if room >= len(p) {
 		s.accepted += len(p)
+		if s.record {
+			s.data = append(s.data, p...)
+		}
 		return len(p), nil
 	}
 	if room < 0 {
 		room = 0
 	}
 	s.accepted += room
+	if s.record {
+		s.data = append(s.data, p[:room]...)
+	}
 	s.refused = true
+	if s.transient {
+		s.recovered = true
+	}
 	if s.shortOnly && !s.faulted {
 		s.faulted = true
 		return room, nil
